@@ -1257,7 +1257,10 @@ func runBootOn(f *liveFix, c BootCase) (vkit.Info, error) {
 		b.winner = succ[0]
 	}
 	if hadWinner == nil && nValid > 0 && len(succ) == 0 {
-		return info, fmt.Errorf("race: %d well-formed requests with the right cluster id raced on a fresh cluster and none succeeded [outcomes: %s]", nValid, describe(race, outs))
+		b.mu.Lock()
+		committed := append([]string(nil), b.commits...)
+		b.mu.Unlock()
+		return info, fmt.Errorf("race: %d well-formed requests with the right cluster id raced on a fresh cluster and none was answered with success (bootstrap txns committed, by store key: %v — the request that committed must be the one that succeeds) [outcomes: %s]", nValid, committed, describe(race, outs))
 	}
 	if err := b.verify("after the race ["+describe(race, outs)+"]", hadWinner != nil); err != nil {
 		return info, err
